@@ -234,6 +234,12 @@ def rule_token_hooks(facts):
 
 # ------------------------------------------------------------------ save / rewind conformance
 
+def on_all_paths(b, blocks):
+    """Does every path from entry to a return pass through one of `blocks`?"""
+    rets = set(mirq.return_blocks(b))
+    return not (mirq.reachable(b, 0, avoid=set(blocks)) & rets)
+
+
 def _one_call(b, pred):
     cs = [(i, bl, t, f) for i, bl, t, f in calls(b) if pred(f)]
     return cs
@@ -309,7 +315,18 @@ def rule_save_rewind(facts):
             src = pv.of_rvalue(cw[0]["rv"], 0)
             ok_c = src == {("arg", 2, "cursor", "inner")}
             dc = "cursor<-%s" % fmt_roots(src)
-        ok = ok_t and ok_h and ok_c
+        # ... and on EVERY path (no early return around the bookkeeping)
+        allp = True
+        if ok_t and want_trunc:
+            allp = allp and on_all_paths(b, [trunc[0][0]])
+        if ok_h:
+            allp = allp and on_all_paths(b, [hook[0][0]])
+        if ok_c:
+            cw_blocks = [i for i, bl, s_ in assigns(b) if is_field(s_["place"], "input::InputRef", "cursor")]
+            allp = allp and on_all_paths(b, cw_blocks)
+        if not allp:
+            dc += " [not on every path: an early return skips part of the restore]"
+        ok = ok_t and ok_h and ok_c and allp
         r.ob(ok)
         r.samples.append({q.split("::")[-1]: "%s; %s; %s" % (dt, dh, dc)})
         if not ok:
@@ -330,7 +347,7 @@ def rule_save_rewind(facts):
     # ---- emit: exactly one push
     b = facts.one("input::InputRef::emit")
     pushes = _one_call(b, lambda f: f is not None and f["name"] in ("push", "insert", "extend", "append", "truncate", "clear", "pop"))
-    ok = len(pushes) == 1 and pushes[0][3]["name"] == "push"
+    ok = len(pushes) == 1 and pushes[0][3]["name"] == "push" and on_all_paths(b, [pushes[0][0]])
     r.ob(ok)
     if not ok:
         r.violations.append(V("HOOKS-SAVE-REWIND", b["qname"], "emit appends exactly one error",
